@@ -165,6 +165,10 @@ mut("C13-revert-bare-constructor-fix", "tform.c",
     "	if (tfHasSelf(tf) && tfIsId(tf) && tfIdSyme(tf) && symeExtension(tfIdSyme(tf))) {", "	if (tfHasSelf(tf) && tfIsId(tf) && symeExtension(tfIdSyme(tf))) {")
 
 
+mut("C13-revert-tuple-definition-echo-fix", "fintphase.c",
+    "                                if (abTag(abId) == AB_Declare)\n", "                                if (false)\n")
+
+
 def main():
     out = os.path.join(os.path.dirname(os.path.abspath(__file__)), "mutants")
     os.makedirs(out, exist_ok=True)
